@@ -61,7 +61,9 @@ def _warn_off():
 def first_parse(src, cx1, scr1, tb):
     import html5lib
     from html5lib import treebuilders
-    p = html5lib.HTMLParser(tree=treebuilders.getTreeBuilder(tb))
+    # "etree-full": the etree builder keeping the document-level nodes (doctype, comments around <html>)
+    builder = treebuilders.getTreeBuilder("etree", fullTree=True) if tb == "etree-full" else treebuilders.getTreeBuilder(tb)
+    p = html5lib.HTMLParser(tree=builder)
     if cx1 is None:
         return p.parse(src, scripting=scr1)
     return p.parseFragment(src, container=cx1, scripting=scr1)
@@ -212,7 +214,7 @@ def chain(tree, tb, kw, fkw, neutral=frozenset()):
     from html5lib import treewalkers
     from html5lib.filters import alphabeticalattributes, optionaltags, whitespace
     from html5lib.serializer import HTMLSerializer
-    stream = treewalkers.getTreeWalker(tb)(tree)
+    stream = treewalkers.getTreeWalker(tb.split("-")[0])(tree)
     if kw.get("alphabetical_attributes"):
         stream = alphabeticalattributes.Filter(stream)
     if kw.get("strip_whitespace"):
@@ -230,7 +232,7 @@ def observe(tree, tb, kw):
     """the observation point of the property: HTMLSerializer(sanitize=True, ...).render(walker(tree))"""
     from html5lib import treewalkers
     from html5lib.serializer import HTMLSerializer
-    return HTMLSerializer(sanitize=True, **kw).render(treewalkers.getTreeWalker(tb)(tree))
+    return HTMLSerializer(sanitize=True, **kw).render(treewalkers.getTreeWalker(tb.split("-")[0])(tree))
 
 
 # ------------------------------------------------------------------------------------------------------------------
@@ -530,6 +532,58 @@ def tricky_docs(rng, quick):
     return docs
 
 
+# ---- several URL-valued attributes on one element; hazards in the tokens the sanitizer passes through unchanged ----------
+URI_ATTRS = ["href", "src", "cite", "action", "longdesc", "poster", "ping", "background", "lowsrc", "dynsrc", "datasrc"]
+URI_ODD = ["http://[", "h://]", "//[::1", "http://[x", "//]", "http://a]b/", "//\u2100/", "data:text/html,x", "data:image/png", "da\tta:x,y"]
+URI_BAD = ["javascript:alert(1)", "vbscript:x", " jav\tascript:x", "JaVaScRiPt:x", "livescript:x", "&#1;javascript:x"]
+
+
+def uri_pair_docs(rng, quick):
+    """two or three URL-valued attributes on one element, one of them taking an exceptional path of the sanitizer (urlparse
+    raises, data: without an allowed type), BOTH role assignments of every attribute pair (set iteration order decides which
+    attribute is looked at first)"""
+    pairs = [(a, b) for a in URI_ATTRS for b in URI_ATTRS if a < b]
+    if quick:
+        pairs = rng.sample(pairs, 20)
+    docs = []
+    for a, b in pairs:
+        odd, bad = rng.choice(URI_ODD[:6] if rng.random() < 0.7 else URI_ODD), rng.choice(URI_BAD)
+        el = rng.choice(["a", "img", "video", "blockquote", "form", "table"])
+        third = "" if rng.random() < 0.6 else ' %s="%s"' % (rng.choice(URI_ATTRS), rng.choice(URI_ODD + URI_BAD))
+        docs.append('<%s %s="%s" %s="%s"%s>x</%s><%s %s="%s" %s="%s">y</%s>' % (el, a, odd, b, bad, third, el, el, a, bad, b, odd, el))
+        docs.append('<svg><a xlink:href="%s" %s="%s" xml:base="%s">t</a><a xlink:href="%s" %s="%s">u</a></svg>'
+                    % (odd, a, bad, rng.choice(URI_BAD), bad, b, odd))
+    return docs
+
+
+DT_PAYLOADS = ["x><img src=x onerror=y>", "><img src=x onerror=y>", "x><script>alert(1)</script>", "x\"><img src=x onerror=y>",
+               "x'><img src=x onerror=y>", "x>--><img src=x onerror=y>", "x><!--", "x>]]><iframe src=javascript:x>", "x> <p onclick=y>"]
+
+
+def doctype_docs(rng, quick):
+    """a payload in every field of the DOCTYPE token (name, public / system identifier, both quote styles, system identifier
+    after SYSTEM and after a public identifier) and in document-level comments: tokens the sanitizer does not rewrite"""
+    docs = []
+    for pl in DT_PAYLOADS if not quick else rng.sample(DT_PAYLOADS, 5):
+        for q in "\"'":
+            if q in pl:
+                continue
+            docs += ["<!DOCTYPE html PUBLIC %s%s%s>" % (q, pl, q), "<!DOCTYPE html SYSTEM %s%s%s>" % (q, pl, q),
+                     "<!DOCTYPE html PUBLIC 'a' %s%s%s>" % (q, pl, q), '<!DOCTYPE html PUBLIC "-//W3C//DTD HTML 4.01//EN"%s%s%s>' % (q, pl, q),
+                     "<!doctype html system%s%s%s>" % (q, pl, q), "<!DOCTYPE html PUBLIC %s%s%s %s%s%s>" % (q, pl, q, q, pl, q)]
+        docs += ["<!DOCTYPE %s>" % pl, "<!DOCTYPE html %s>" % pl, "<!-- %s --><!DOCTYPE html><p>" % pl, "<!DOCTYPE html><!--%s--><html><!--%s-->" % (pl, pl),
+                 "<p>x</p></html><!-- %s -->" % pl]
+    return [d + rng.choice(["", "<p>x", "<table><td>y"]) for d in docs]
+
+
+def doc_builder(i, src):
+    """tree form of a DOCUMENT first parse: the two forms that keep document-level nodes (doctype, comments outside <html>) and
+    the default etree result (the <html> element only)"""
+    if src[:2] == "<!" or "</html>" in src:
+        return "dom" if i % 2 else "etree-full"
+    return ("dom", "etree", "etree-full")[i % 3]
+
+
 def build_jobs(ctx, extra_srcs):
     rng = ctx.rng
     q = ctx.quick
@@ -550,8 +604,10 @@ def build_jobs(ctx, extra_srcs):
         srcs.append((corpus.soup(rng), "?", "?", None))
     for _ in range(150 if q else 3000):
         srcs.append((corpus.mutate(rng, mxss_doc(rng)), "?", "?", None))
-    for s_ in ref_docs(rng, q) + tricky_docs(rng, q):
+    for s_ in ref_docs(rng, q) + tricky_docs(rng, q) + uri_pair_docs(rng, q):
         srcs.append((s_, rng.choice([None, "div", "div"]), "default", "short"))
+    for s_ in doctype_docs(rng, q):
+        srcs.append((s_, None, "default", "short"))
     jobs = []
     for i, (src, cx1, lists, scr) in enumerate(srcs):
         short = scr == "short"
@@ -568,7 +624,7 @@ def build_jobs(ctx, extra_srcs):
         rps = [(None, False, "etree"), ("div", not scr1, "dom" if i % 2 else "etree")]
         for _ in range(0 if short else 2):
             rps.append((rng.choice(REPARSE_CX), rng.random() < 0.5, rng.choice(["etree", "dom"])))
-        jobs.append({"src": src, "cx1": cx1, "scr1": scr1, "tb": "dom" if (i % 3 == 0 or src.lower().startswith("<!doctype")) else "etree",
+        jobs.append({"src": src, "cx1": cx1, "scr1": scr1, "tb": doc_builder(i, src) if cx1 is None else ("dom" if i % 3 == 0 else "etree"),
                      "kw": kw, "lists": lists, "rps": rps})
     for i, (src, kw) in enumerate(long_jobs(rng, q)):
         jobs.append({"src": src, "cx1": "div" if i % 3 else None, "scr1": False, "tb": "dom" if i % 2 else "etree", "kw": kw,
@@ -622,7 +678,7 @@ def _replay(rec):
         kw = mxssgen.serializer_kwargs(o)
         lists = mine["lists"]
         fkw = mxssgen.filter_kwargs(lists)
-        tb = "dom" if (cx1 is None or (len(src) + pi) % 2) else "etree"
+        tb = ("dom" if len(src) % 2 else "etree-full") if cx1 is None else ("dom" if (len(src) + pi) % 2 else "etree")
         try:
             tree = first_parse(src, cx1, f["scr"], tb)
             out, passed = chain(tree, tb, kw, fkw)
@@ -783,17 +839,19 @@ def run(ctx):
     # (exploration, configuration); std_run(alphabet, max fragments, allow-lists)
     R = mxssgen.std_run
     plan = ([(R("core", 2, "default"), "intended"), (R("all", 2, "default"), "faithful"), (R("deep", 3, "default"), "faithful"),
-             (R("core", 2, "extended"), "faithful"), (mxssgen.REFS_RUN, "faithful"), (mxssgen.LONG_RUN, "faithful")] if q else
+             (R("core", 2, "extended"), "faithful"), (mxssgen.REFS_RUN, "faithful"), (mxssgen.LONG_RUN, "faithful"),
+             (mxssgen.URIS_RUN, "faithful"), (mxssgen.DOCTYPE_RUN, "faithful")] if q else
             [(R("all", 2, "default"), "intended"), (R("deep", 3, "default"), "intended"), (R("all", 2, "extended"), "intended"),
-             (mxssgen.REFS_RUN, "intended"), (mxssgen.LONG_RUN, "intended"),
+             (mxssgen.REFS_RUN, "intended"), (mxssgen.LONG_RUN, "intended"), (mxssgen.URIS_RUN, "intended"), (mxssgen.DOCTYPE_RUN, "intended"),
              (R("all", 2, "default"), "faithful"), (R("core", 3, "default"), "faithful"), (R("deep", 4, "default"), "faithful"),
              (R("all", 2, "extended"), "faithful"), (R("deep", 3, "extended"), "faithful"), (mxssgen.REFS_RUN, "faithful"),
-             (mxssgen.LONG_RUN, "faithful")])
+             (mxssgen.LONG_RUN, "faithful"), (mxssgen.URIS_RUN, "faithful"), (mxssgen.DOCTYPE_RUN, "faithful")])
     ctx.assumptions = list(ASSUMED)
     ctx.constants = {
         "MC plan (alphabet per fragment position, allow-lists, configuration)":
             [["+".join(r["alphas"]), r["lists"], dec(r["pre"]), dec(r["post"]), r["plan"], m] for r, m in plan],
         "alphabets": {"all": mxssgen.ALL, "core": mxssgen.CORE, "deep": mxssgen.DEEP, "refs": mxssgen.REFS, "tails": mxssgen.MC_TAILS,
+                      "uris": mxssgen.URIS, "dtkw": mxssgen.DT_KW, "dtid": mxssgen.DT_ID,
                       "pads": "'A' x n for n in %s (n-1, n, n+1 around the integer literals of %s (harness/literals.py) and 64, 256)"
                               % (mxssgen.value_sizes(mxssgen.MC_SIZE_CAP, (64, 256)), list(mxssgen.SIZE_SOURCES))},
         "per state": "first parse {document, fragment(div), fragment(div) scripting} x 3 option vectors x re-parse {document, div, div "
